@@ -259,7 +259,8 @@ func runOnce(in *Input, raw json.RawMessage, o vhlib.Opts, attempt int) (*vhlib.
 	if err := buildBase(in, base); err != nil {
 		return nil, fmt.Errorf("build base: %w", err)
 	}
-	probe := probeNames(in)
+	probeList := probeNames(in)
+	probe := strings.Join(probeList, ",") + "|" + probeTimes(in)
 	hashes := map[string]int{}
 	// model inputs: raw trees of destination and source (own lister; contents via gpfile reads)
 	dstTree, err := rawTree(filepath.Join(base, "dst"), hashes, in)
@@ -349,8 +350,33 @@ func runOnce(in *Input, raw json.RawMessage, o vhlib.Opts, attempt int) (*vhlib.
 	}
 
 	c := &vhlib.Case{Observed: obs, Tags: tags, Nontrivial: len(points) > 0}
-	c.Coq = coqCase(in, dstTree, srcTree, probe, names, tr, obs)
+	c.Coq = coqCase(in, dstTree, srcTree, probeList, probeTSList(in), names, tr, obs)
 	return c, nil
+}
+
+func probeTSList(in *Input) []int64 {
+	m := map[int64]bool{}
+	for _, db := range [][]Iface{in.Dst, in.Src} {
+		for _, i := range db {
+			for _, d := range i.Days {
+				m[d.TS] = true
+			}
+		}
+	}
+	var out []int64
+	for k := range m {
+		out = append(out, k)
+	}
+	sort.Slice(out, func(a, b int) bool { return out[a] < out[b] })
+	return out
+}
+
+func probeTimes(in *Input) string {
+	var xs []string
+	for _, t := range probeTSList(in) {
+		xs = append(xs, fmt.Sprint(t))
+	}
+	return strings.Join(xs, ",")
 }
 
 func probeNames(in *Input) []string {
@@ -460,6 +486,14 @@ func stateOldOrNew(s, before, final *State) string {
 		for _, d := range pi.Walk {
 			if isArtifact(d.Name) {
 				return "artifact-listed-as-day:" + d.Name
+			}
+		}
+		for _, t := range pi.Targets {
+			if isArtifact(t.Write) {
+				return "writer-would-open-artifact:" + t.Write
+			}
+			if isArtifact(t.Recover) {
+				return "reader-recovery-picks-artifact:" + t.Recover
 			}
 		}
 		// every day: view is the old one or the new one
